@@ -210,9 +210,7 @@ def headClass (title : Option Str) (metas : List Node) : String :=
   let ss := kidsStrings metas ++ title.toList
   if anyStr (· = cNul) ss then "nul-char"
   else if anyStr (· = cCr) ss then "cr-char"
-  else match title with
-    | some t => if titleInert t then "unexpected" else "title-unescaped"
-    | none => "unexpected"
+  else "unexpected"
 
 def step (_ : Unit) (line : String) : Unit × String :=
   let out :=
